@@ -158,7 +158,7 @@ def shard(ctx):
         ctx.evaluations -= 1
         check(ctx, case)
 
-    ctx.run_hypothesis(cases(), oracle, ctx.scale(3000, 40000))
+    ctx.run_hypothesis(cases(), oracle, ctx.scale(9000, 60000))
 
 
 def replay(ctx, case):
